@@ -5,7 +5,7 @@ breaks.
 `ActInv`: a sender with counted messages (`pending > 0`) is active, or some thread is parked at a site
 from which it will (re)check that sender (`isCheck`: the producer between `Add:pending` = 1 and its
 `CAS:active`; the consumer between `Store:active(false)` and the re-check CAS).  Every atomic step of
-every thread preserves `ActInv`, with ONE exception: the nil-branch re-check (`i4`) executed while
+every thread preserves `ActInv`, with ONE exception: the nil-branch re-check (`i3`) executed while
 `pending > 0`, `active = false` and `length ≤ 0` (`guardMiss`).  The counting identity
 `length = Σ pending ± in flight` would exclude that step; it is false of the code as it is (Props:
 `fair_counting_refuted`, witnesses F9/F9b), so the theorem is stated over the runs without such a step
@@ -22,6 +22,9 @@ open GoaktVerif.Model.C04 GoaktVerif.Model.C04.Fair
 
 /-- sites from which the parked thread will still (re)check sender `k` -/
 def isCheck (k : Nat) : PC → Bool
+  | .ub k' true (.enq1 _) => k' == k
+  | .ub k' true (.enq2 _) => k' == k
+  | .ub k' true (.enq3 _ _) => k' == k
   | .f6 k' => k' == k
   | .i2 k' => k' == k
   | .i3 k' => k' == k
@@ -33,7 +36,7 @@ def isCheck (k : Nat) : PC → Bool
 /-- the one step that gives up a sender with counted messages: Dequeue's nil-branch re-check finds
 `pending > 0`, `active = false`, but `length ≤ 0` -/
 def guardMiss (s : Sh) : PC → Bool
-  | .i4 k => decide ((s.boxes k).pending > 0) && ((s.boxes k).active == false) && !decide (s.length > 0)
+  | .i3 k => decide ((s.boxes k).pending > 0) && ((s.boxes k).active == false) && !decide (s.length > 0)
   | _ => false
 
 /-! ### shared-state facts -/
@@ -79,23 +82,45 @@ theorem outcome_same (s : Sh) (pc : PC) (k : Nat)
 theorem exec_outcome (s : Sh) (pc : PC) (k : Nat) (hg : guardMiss s pc = false)
     (h : ((exec s pc).1.boxes k).pending > 0) : Outcome s pc k := by
   cases pc with
-  | ub k' upc =>
+  | ub k' first upc =>
     have hb : ∀ s' : Sh, s' = s.updBox k' (fun b => { b with mb := (Unbounded.exec (s.boxes k').mb upc).1 }) →
         (s'.boxes k).pending = (s.boxes k).pending ∧ (s'.boxes k).active = (s.boxes k).active := by
       intro s' e; subst e
       by_cases hk : k = k'
       · subst hk; simp [updBox_same]
       · simp [updBox_ne _ _ _ _ hk]
-    have hs : (exec s (.ub k' upc)).1 = s.updBox k' (fun b => { b with mb := (Unbounded.exec (s.boxes k').mb upc).1 }) := by
+    have hs : (exec s (.ub k' first upc)).1 = s.updBox k' (fun b => { b with mb := (Unbounded.exec (s.boxes k').mb upc).1 }) := by
       simp only [exec]
       split <;> rfl
-    exact outcome_same s _ k (by rw [hs]; exact (hb _ rfl).1) (by rw [hs]; exact (hb _ rfl).2) rfl h
-  | f4 k' => exact outcome_same s _ k rfl rfl rfl h
-  | f5 k' =>
+    have hsame : isCheck k (.ub k' first upc) = false → Outcome s (.ub k' first upc) k := fun hc =>
+      outcome_same s _ k (by rw [hs]; exact (hb _ rfl).1) (by rw [hs]; exact (hb _ rfl).2) hc h
+    by_cases hk : k = k'
+    · subst hk
+      cases first with
+      | false => exact hsame (by cases upc <;> rfl)
+      | true =>
+        cases upc with
+        | enq1 v => exact Or.inr (Or.inl ⟨.ub k true (.enq2 v), rfl, by simp [isCheck]⟩)
+        | enq2 v => exact Or.inr (Or.inl ⟨.ub k true (.enq3 v (s.boxes k).mb.tail), rfl, by simp [isCheck]⟩)
+        | enq3 v prev => exact Or.inr (Or.inl ⟨.f6 k, rfl, by simp [isCheck]⟩)
+        | deq1 => exact hsame rfl
+        | deq2 hd => exact hsame rfl
+        | deq3 hd n => exact hsame rfl
+        | deq4 hd n => exact hsame rfl
+        | emp1 => exact hsame rfl
+        | emp2 hd => exact hsame rfl
+        | len1 => exact hsame rfl
+        | len2 hd => exact hsame rfl
+        | len3 cur cnt => exact hsame rfl
+    · apply hsame
+      have hk' : (k' == k) = false := by simp; exact fun e => hk e.symm
+      cases first <;> cases upc <;> simp [isCheck, hk']
+  | f4 k' v => exact outcome_same s _ k rfl rfl rfl h
+  | f5 k' v =>
     by_cases hk : k = k'
     · subst hk
       by_cases h1 : (s.boxes k).pending + 1 = 1
-      · refine Or.inr (Or.inl ⟨.f6 k, ?_, by simp [isCheck]⟩)
+      · refine Or.inr (Or.inl ⟨.ub k true (.enq1 v), ?_, by simp [isCheck]⟩)
         simp [exec, h1]
       · refine Or.inr (Or.inr ⟨?_, ?_, rfl⟩)
         · simp only [exec, updBox_same] at h
@@ -144,27 +169,24 @@ theorem exec_outcome (s : Sh) (pc : PC) (k : Nat) (hg : guardMiss s pc = false)
   | i3 k' =>
     by_cases hk : k = k'
     · subst hk
-      exact Or.inr (Or.inl ⟨.i4 k, rfl, by simp [isCheck]⟩)
+      have hp : (s.boxes k).pending > 0 := h
+      by_cases hl : s.length > 0
+      · refine Or.inr (Or.inl ⟨.i4 k, ?_, by simp [isCheck]⟩)
+        simp [exec, hl, hp]
+      · cases hact : (s.boxes k).active with
+        | true => exact Or.inl hact
+        | false =>
+          exfalso
+          simp [guardMiss, hact, hl, hp] at hg
     · exact outcome_same s _ k rfl rfl (by simp [isCheck]; exact fun e => hk e.symm) h
   | i4 k' =>
     by_cases hk : k = k'
     · subst hk
       left
-      simp only [exec] at h ⊢
+      simp only [exec]
       split
       · rw [activate_boxes, updBox_same]
-      · next hne =>
-        rw [if_neg hne] at h
-        simp only [guardMiss] at hg
-        cases hact : (s.boxes k).active with
-        | true => rfl
-        | false =>
-          exfalso
-          simp only [hact] at hg hne
-          have hp : (s.boxes k).pending > 0 := h
-          by_cases hl : s.length > 0
-          · simp [hl, hp] at hne
-          · simp [hl, hp] at hg
+      · next hne => simpa using hne
     · refine outcome_same s _ k ?_ ?_ (by simp [isCheck]; exact fun e => hk e.symm) h <;>
       · simp only [exec]
         split
@@ -306,18 +328,18 @@ theorem quiescent_no_check (c : Cfg Fair.algo) (hd : (c.threads.all fun t => t.p
 /-- the UnboundedMailbox of sender `k` changes only by UnboundedMailbox steps taken on behalf of `k` -/
 theorem subqueue_frame (s : Sh) (pc : PC) (k : Nat) :
     ((exec s pc).1.boxes k).mb = (s.boxes k).mb ∨
-    ∃ upc, pc = .ub k upc ∧ ((exec s pc).1.boxes k).mb = (Unbounded.exec (s.boxes k).mb upc).1 := by
+    ∃ first upc, pc = .ub k first upc ∧ ((exec s pc).1.boxes k).mb = (Unbounded.exec (s.boxes k).mb upc).1 := by
   cases pc with
-  | ub k' upc =>
-    have hs : (exec s (.ub k' upc)).1 = s.updBox k' (fun b => { b with mb := (Unbounded.exec (s.boxes k').mb upc).1 }) := by
+  | ub k' first upc =>
+    have hs : (exec s (.ub k' first upc)).1 = s.updBox k' (fun b => { b with mb := (Unbounded.exec (s.boxes k').mb upc).1 }) := by
       simp only [exec]
       split <;> rfl
     by_cases hk : k = k'
     · subst hk
-      exact Or.inr ⟨upc, rfl, by rw [hs, updBox_same]⟩
+      exact Or.inr ⟨first, upc, rfl, by rw [hs, updBox_same]⟩
     · exact Or.inl (by rw [hs, updBox_ne _ _ _ _ hk])
-  | f4 k' => exact Or.inl rfl
-  | f5 k' =>
+  | f4 k' v => exact Or.inl rfl
+  | f5 k' v =>
     left
     by_cases hk : k = k'
     · subst hk; simp only [exec, updBox_same]
